@@ -29,3 +29,13 @@ Definition run_msc_mfp mv mf mb mp (e : float) : float := msc_mfp (mk mv mf mb m
 From Celer Require Import C14.Builder.
 Definition run_build_prime (lmin le lmax : float) (n : Z) : Z :=
   build_prime_index 0x1.19799812dea11p-40%float 0x1.6849b86a12b9bp-47%float lmin le lmax n.
+
+(** MscStepToGeo followed by MscStepFromGeo on fractions of the geometric path
+    (g, the float just below g, g/2, g/1000): per true step (g, alpha, [back values]) *)
+Definition run_msc (min_step dtrl small : float) mv mf mb mp rv rf rb rp
+           (emass energy lambda range : float) (ts : list float) : list (float * float * list float) :=
+  map (fun t =>
+         let '(g, a) := msc_to_geo min_step dtrl small (mk mv mf mb mp) (mk rv rf rb rp)
+                                   emass energy lambda range t in
+         (g, a, map (msc_from_geo min_step small t a range lambda)
+                    [g; PrimFloat.next_down g; PrimFloat.mul g 0x1p-1%float; PrimFloat.mul g 0x1.0624dd2f1a9fcp-10%float])) ts.
